@@ -124,7 +124,9 @@ def eval_session(model, case):
         vars=twin["fin"] + [[]], ctl=(ctl or []), disp=D.display_opts(spec.get("kwargs", {}).get("itstat_options")),
     )
     bundle = {"twin": twin, "real": real, "model": mres, "min0": min0}
-    custom = spec.get("kwargs", {}).get("itstat_options") == "custom"
+    custom = spec.get("kwargs", {}).get("itstat_options") in ("custom", "custom-same")
+    if real["opts_unchanged"] is not True:
+        return {"op_index": -1, "op": "constructor", "what": "caller's itstat_options object unchanged", "impl": False, "model": True}, bundle
     nrows = 0
     for idx, (o, ob, mo) in enumerate(zip(ops, real["obs"], mres)):
         def mm(what, impl, mod):
@@ -150,8 +152,9 @@ def eval_session(model, case):
                 if r[1] != m[1]:
                     return mm(f"record {q} Time", r[1], m[1]), bundle
                 if custom:
-                    if r[2] != nrows + q:
-                        return mm(f"record {q} custom field", r[2], nrows + q), bundle
+                    want_c = [nrows + q] + [-float(c) for c in range(3, len(r))]
+                    if list(r[2:]) != want_c:
+                        return mm(f"record {q} custom fields", r[2:], want_c), bundle
                 else:
                     acc = twin["acc"][m[2] - 1]
                     if [a for a, _ in acc] != real["names"][2:]:
@@ -221,6 +224,8 @@ def session_oracle(case):
     min0 = D.flat(D.build(spec).minimizer())
     real = D.run_history(spec, ops, st, ct, clock0, ctl=case.get("ctl"))
     r = G.solve_oracle(spec, ops, st, ct, real["obs"], twin, min0, ctl=case.get("ctl"))
+    if r is None and real["opts_unchanged"] is not True:
+        r = {"fails": "constructing the optimiser(s) modified the caller's itstat_options dictionary"}
     if r is None and real["transpose_ok"] is not True:
         r = {"fails": "history(transpose=True) is not the transpose of history()"}
     if r is not None:
@@ -255,7 +260,7 @@ def shrink_session(model, case, mis):
 
 def session_key(case):
     sp = case["spec"]
-    return json.dumps([sp["cls"], sp["block"], sp.get("solver"), sp.get("nan"), sp.get("kwargs"), case["ops"], case.get("ctl")], sort_keys=True)
+    return json.dumps([sp["cls"], sp["block"], sp.get("solver"), sp.get("nan"), sp.get("kwargs"), sp.get("reuse"), case["ops"], case.get("ctl")], sort_keys=True)
 
 
 def check_session(ctx, model, case, origin="gen"):
@@ -278,6 +283,8 @@ def check_session(ctx, model, case, origin="gen"):
         if dopt["display"]:
             ctx.count(f"display:period={dopt['period']} shift={int(dopt['shift_cycles'])} overwrite={int(dopt['overwrite'])}")
             ctx.count("display:characters compared", sum(len(c.get("printed_text", "")) for c in bundle["real"]["obs"] if c.get("op") == "solve"))
+    if spec.get("reuse"):
+        ctx.count(f"session:optimisers built earlier from the same options object={spec['reuse']}")
     if case.get("ctl"):
         ctx.count("session:callbacks assign itnum/maxiter")
         ncb = sum(len(c.get("cbs", [])) for c in bundle["real"]["obs"] if c.get("op") == "solve")
@@ -484,7 +491,7 @@ def check_kwargs(ctx, model):
                 continue
             if s is not None:
                 names = list(s.itstat_object.fieldname)
-                if kw.get("itstat_options") == "custom":
+                if kw.get("itstat_options") in ("custom", "custom-same"):
                     continue
                 evaluable = bool(spec.get("has_eval", True))
                 want = model.call("fields", cls=cls, solver=spec.get("solver", "other"), obj=evaluable)
@@ -507,6 +514,67 @@ def check_kwargs(ctx, model):
                        "pdhg": ["x", "z"], "pgm": ["x"], "apgm": ["x", "v"]}[cls]
                 if fs["vars"] != doc:
                     ctx.disagree("driver.fields", dict(case, what="working variables"), doc, fs["vars"])
+
+
+def check_itstat_setup(ctx, model):
+    """`itstat_func_and_object` called 1-3 times with the SAME options object (None, {}, or a random selection of
+    keys in random order) against the model's pure function: which insertion function, which IterationStats
+    arguments, and the caller's dictionary afterwards (same keys, same order, same value objects)"""
+    from scico.optimize._common import itstat_func_and_object
+
+    rng = ctx.rng
+    dflt_fields = {"Iter": "%d", "Time": "%8.2e"}
+    custom_fields = {"Iter": "%d", "Row": "%d", "Extra": "%8.2e"}
+
+    def custom_func(obj):
+        return (0, 0, 0.0)
+
+    pool = [("fields", custom_fields, 11), ("itstat_func", custom_func, 12), ("display", True, 1), ("display", False, 0),
+            ("period", 3, 3), ("overwrite", False, 0), ("colsep", 4, 4), ("shift_cycles", False, 0), ("ident", None, -1)]
+    for _ in range(ctx.n(120, 600)):
+        r = rng.random()
+        if r < 0.08:
+            user, toks = None, None
+        elif r < 0.16:
+            user, toks = {}, []
+        else:
+            user, toks = {}, []
+            for i in rng.permutation(len(pool)):
+                k, v, t = pool[int(i)]
+                if k not in user and rng.random() < 0.45:
+                    user[k] = v
+                    toks.append([k, t])
+        n = int(rng.integers(1, 4))
+        snap = None if user is None else list(user.items())
+        impl = []
+        for _b in range(n):
+            f, obj = itstat_func_and_object(dict(dflt_fields), ["itnum", "timer.elapsed()"], user)
+            kw = {"fields": 11 if obj.fieldname == list(custom_fields) else 1 if obj.fieldname == list(dflt_fields) else -9,
+                  "display": int(bool(obj.display)), "period": int(obj.period), "overwrite": int(bool(obj.overwrite)),
+                  "colsep": int(obj.colsep), "shift_cycles": int(obj.period_offset == 1)}
+            impl.append({"func": 12 if f is custom_func else 2, "kwargs": kw})
+        after_ok = user is None or (list(user.keys()) == [k for k, _ in snap] and all(user[k] is v for k, v in snap))
+        m = model.call("itstat_setup", user=toks, n=n, fields=1, func=2, display=0)
+        want = []
+        for sset in m["setups"]:
+            kw = {"period": 1, "overwrite": 1, "colsep": 2, "shift_cycles": 1}
+            kw.update({k: v for k, v in sset["kwargs"] if k != "ident"})
+            want.append({"func": sset["func"], "kwargs": kw})
+        case = {"kind": "itstat_setup", "user": toks, "n": n}
+        ctx.case(case, json.dumps(case, sort_keys=True) if toks else None, sample_every=100)
+        ctx.count(f"options:objects built from one dict={n}")
+        ctx.count("options:" + ("None" if toks is None else "empty" if not toks else "fields+func" if {"fields", "itstat_func"} <= {k for k, _ in toks} else "other"))
+
+        def oracle(c, after_ok=after_ok, impl=impl):
+            if not after_ok:
+                return {**c, "fails": "itstat_func_and_object modified the caller's itstat_options dictionary"}
+            if any(i != impl[0] for i in impl):
+                return {**c, "fails": "optimisers built from the same options object got different statistics set-ups", "setups": impl}
+            return None
+
+        if impl != want or not after_ok or m["user_after"] != toks:
+            ctx.disagree("driver.options", case, {"setups": impl, "dict_unchanged": after_ok}, {"setups": want, "dict_unchanged": m["user_after"] == toks},
+                         oracle=oracle)
 
 
 def check_finite(ctx, model):
@@ -635,6 +703,7 @@ def correspond(ctx, model):
     check_timer_exhaustive(ctx, model)
     # 3. constructor keywords / statistics columns / finiteness test / transpose
     check_kwargs(ctx, model)
+    check_itstat_setup(ctx, model)
     check_finite(ctx, model)
     check_transpose(ctx, model)
     # 4. solve histories, every class in turn
